@@ -85,7 +85,12 @@ class JaxOperator(Operator):
         self._domain = makeDomain(domain)
         self._target = makeDomain(target)
         self._func = jax.jit(func)
-        self._bwd = jax.jit(lambda x, y: jax.vjp(func, x)[1](y)[0])
+        def _bwd(x, y):
+            out, vjp = jax.vjp(func, x)
+            # cotangents may arrive with a real dtype (e.g. zero-filled components) although func is complex-valued
+            y = jax.tree_util.tree_map(lambda c, o: jax.numpy.asarray(c, dtype=o.dtype), y, out)
+            return vjp(y)[0]
+        self._bwd = jax.jit(_bwd)
         self._fwd = jax.jit(lambda x, y: jax.jvp(self._func, (x,), (y,))[1])
 
     def apply(self, x):
